@@ -121,7 +121,7 @@ Section Exec.
     | OErr => Some None
     | OOk ret =>
         if has_opts flags BitCompactMarshaler then Some (compact ret)
-        else if negb (has_opts flags BitNoValidateJSONMarshaler) && negb (json_valid ret) then Some None
+        else if negb (has_opts flags BitNoValidateJSONMarshaler) && negb (native_valid ret) then Some None   (* alg.Valid: the native validator *)
         else Some (Some ret)
     end.
 
